@@ -32,6 +32,14 @@ Observed:  {"cols": as for frames (attributes read right after construction),
                       | {"found": bool}                                                                   for pop
                       | {"res": {"n": "", "s","upper","ext","name"}}                                      for retype],
             "final": [[name, ty, length, precision, scale, element], ...]}
+
+Round 4, fourth case shape (stream "decl"): the constructor's own keywords next to the type name
+Case:      {"decl": {"s": type name, "route": "ctor" | "document",
+                     "kw": {"length" | "precision" | "scale": ["none"] | ["val", int],  "element_type": ["none"] | ["member", NAME] | ["name", type name]}}}
+           a keyword that is absent from "kw" is not passed at all; route "document" = RelationSchema.from_dict on a schema document that
+           also spells out every other FlatColumn field with its default
+Observed:  {"s", "upper", "ext", "name": from_name(s), "elt": None | {"s", "upper", "ext", "name"} (element_type given as a name),
+            "col": as in the first shape}
 """
 import ast
 import os
@@ -59,7 +67,11 @@ LEVEL_TEXT = ("Machine-checked Coq theorems over the executable model: every wel
               "Sessions (stream 'session'): one mutable schema object with the process-wide column_names cache as explicit state; operations describe-through-frame-f / "
               "re-declare at an index / append / pop / assign attributes in place; proved: through a frame the cache does not remember, and through the cached frame "
               "after in-place re-declarations, .description answers the schema as it is now, after any history; tied to the code on every ordered (old, new) pair of 10 "
-              "declarations x 5 re-declaration routes plus random sessions.")
+              "declarations x 5 re-declaration routes plus random sessions. "
+              "Constructor keywords (stream 'decl'): FlatColumn(type=<name>, length/precision/scale/element_type omitted | None | value) by keyword and through a spelled-out "
+              "schema document; proved: any mixture of omitted and None keywords is the type name alone (so the end-to-end column theorem holds for it), a passed value is what "
+              "the column carries; tied to the code on 12 names x all 16 None-subsets, value patterns and random declarations. Malformed names now include formatter / template "
+              "tokens (balanced braces, %, $, backslash escapes, regex groups, NUL, quotes) in every position class.")
 LEVEL_NOTE = ("Trusted: Coq kernel + vm_compute; the hand-written recognisers (validated against CPython's re on the extracted regex texts by the correspondence, "
               "not derived from the regex text); the AST reader in gen(); CPython str.upper / re character classes / int() on non-ASCII characters enter the "
               "correspondence as per-case oracle inputs (the model is evaluated with the interpreter's upper-cased string and the \\d/\\w/\\s membership and digit "
@@ -67,8 +79,8 @@ LEVEL_NOTE = ("Trusted: Coq kernel + vm_compute; the hand-written recognisers (v
               "No axioms (Print Assumptions: closed).")
 DESIGN_REF = "DESIGN.md section 8, C06"
 COQ_IMPORTS = "From Orso Require Import Base.C06_Defs Model.C06."
-COQ_CHECKS = {"name": "c06_check", "frame": "c06_frame_check", "session": "c06_session_check"}
-COQ_SHOW = {"name": "c06_show", "frame": "c06_frame_show", "session": "c06_session_show"}
+COQ_CHECKS = {"name": "c06_check", "frame": "c06_frame_check", "session": "c06_session_check", "decl": "c06_decl_check"}
+COQ_SHOW = {"name": "c06_show", "frame": "c06_frame_show", "session": "c06_session_show", "decl": "c06_decl_show"}
 RULE = ("strings handed to OrsoTypes.from_name, FlatColumn(type=...) and DataFrame.description; exhaustive: every member name and alias in upper, lower, "
         "capitalised and both alternating case patterns, DECIMAL(p,s) for (p,s) in 0..45 x 0..45, VARCHAR[n] and BLOB[n] for n in 0..300 and boundary widths "
         "(powers of two and ten, 4299/4300/4301-digit runs), ARRAY<T> for every name and alias T, every ASCII character in a digit / space / element position; "
@@ -80,13 +92,18 @@ RULE = ("strings handed to OrsoTypes.from_name, FlatColumn(type=...) and DataFra
         "neighbours; a frame is non-trivial when at least two of its columns were constructed; distinct by the list; "
         "sessions: initial columns + operations (describe f, replace i, append, pop, retype i) on one RelationSchema object, frames kept between steps - exhaustive: every "
         "ordered pair (old, new) of 10 declarations x 5 routes, each described through the frame used before the change and one created after; random: 1-5 columns, 4-13 "
-        "operations over a 6-name pool; a session is non-trivial when the schema was changed between two descriptions")
+        "operations over a 6-name pool; a session is non-trivial when the schema was changed between two descriptions; "
+        "declarations with keywords: type name + each of length / precision / scale / element_type omitted, None or a value (element type as member or as a name), by keyword "
+        "or through RelationSchema.from_dict with every other field spelled out - exhaustive over 12 names x 16 None-subsets (+5 by document) + 13 value patterns + the name's "
+        "own values; non-trivial when the name resolves and a keyword is passed; template tokens: 36 tokens x 10 placements, plus random insertions")
 TRUSTED = [
     "C06 model (coq/Model/C06.v): recognisers for the four regular expressions with prefix-match semantics (greedy runs; no backtracking is needed because each run is "
     "followed by a character outside its class), str.upper on ASCII, int() as positional decimal with CPython's digit-count limit, from_name's decision tree "
     "interpreted from regenerated rule tables, FlatColumn's parameter copy with the DECIMAL defaults, description's type-code rendering, "
     "description's loop over the schema with RelationSchema.find_column's first-match lookup by name (hand-written, not regenerated from the AST), "
     "the session state: list assignment / append / pop_column on schema.columns and the single-item column_names cache keyed by frame object (hand-written)",
+    "FlatColumn.__init__'s handling of its own length / precision / scale / element_type keywords (hand-written: stored as passed, element type name resolved first, "
+    "parsed parameters copied where the attribute is None, DECIMAL defaults last)",
     "gen(): reads OrsoTypes.__members__ from the imported module and the regex texts, the if/elif chain of from_name, the startswith tuple and the DECIMAL guards from "
     "the AST of orso/types.py; refuses any shape it does not recognise; asserts the regex texts are the four the recognisers were written for",
     "modelled, not verified: CPython re / str.upper / int; for non-ASCII input their behaviour is supplied per case by the running interpreter",
@@ -100,6 +117,8 @@ ASSUMPTIONS = [
     "sessions: 'depends only on the current schema' is stated for a frame object the process-wide DataFrame.column_names cache does not remember, or remembers with "
     "the schema's current list of names (not_cached / cached_current); a frame object described again after the list of NAMES changed answers with the old names in "
     "the implementation (missing column, or AttributeError) - modelled and compared exactly (C06_nonvacuous_sessions), not demanded by the oracle",
+    "constructor keywords are None, omitted, non-negative ints (<= 10^6 for precision, where int(0.75*p) = 3p/4 exactly) or, for element_type, an OrsoTypes member or a str; "
+    "an element_type NAME that resolves to the integer 0 (VARIANT / MISSING / '0') is outside the model (element_type becomes 0 and DataFrame.description raises AttributeError)",
 ]
 KNOWN_WITNESSES = {}
 
@@ -673,6 +692,56 @@ def _observe_session(case):
     return {"cols": cols, "steps": steps, "final": final}
 
 
+DOC_DEFAULTS = {"default": None, "description": None, "disposition": None, "aliases": [], "nullable": True, "expectations": [],
+                "origin": [], "highest_value": None, "lowest_value": None, "null_count": None}
+
+
+def _observe_decl(case):
+    from orso.dataframe import DataFrame
+    from orso.schema import FlatColumn, RelationSchema
+    from orso.types import OrsoTypes
+
+    d = case["decl"]
+    s = d["s"]
+    up = s.upper()
+    obs = {"s": s, "upper": up, "ext": _ext_of(up), "elt": None}
+    kwargs = {}
+    for k, v in d["kw"].items():
+        if v[0] == "none":
+            kwargs[k] = None
+        elif v[0] == "val":
+            kwargs[k] = v[1]
+        elif v[0] == "member":
+            kwargs[k] = OrsoTypes[v[1]]
+        else:
+            kwargs[k] = v[1]
+    with warnings.catch_warnings():
+        warnings.simplefilter("ignore")
+        obs["name"] = _resolve(s)
+        e = d["kw"].get("element_type")
+        if e is not None and e[0] == "name":
+            eu = e[1].upper()
+            obs["elt"] = {"s": e[1], "upper": eu, "ext": _ext_of(eu), "name": _resolve(e[1])}
+        try:
+            if d["route"] == "document":
+                doc = {"name": "t", "columns": [dict(DOC_DEFAULTS, name="c", type=s, **{k: (list(v) if isinstance(v, list) else v) for k, v in kwargs.items()})]}
+                col = RelationSchema.from_dict(doc).columns[0]
+            else:
+                col = FlatColumn(name="c", type=s, **kwargs)
+        except Exception as ex:
+            obs["col"] = ["raise", type(ex).__name__]
+            return obs
+        try:
+            df = DataFrame(rows=[], schema=RelationSchema(name="t", columns=[col]))
+            dd = df.description
+            code, dprec, dscale = dd[0][1], dd[0][4], dd[0][5]
+            back = _resolve(code) if isinstance(code, str) else ["raise", "not-a-string"]
+            obs["col"] = ["ok"] + _attrs(col) + [code if isinstance(code, str) else ["other", repr(code)[:60]], _num(dprec), _num(dscale), back]
+        except Exception as ex:
+            obs["col"] = ["raise", "description:" + type(ex).__name__]
+    return obs
+
+
 def _observe_frame(case):
     """A whole frame: every declared column, then DataFrame.description of the frame built from the columns
     whose constructor did not raise - called twice on the same frame; column attributes are read afterwards."""
@@ -716,6 +785,8 @@ def observe(case):
         return _observe_frame(case)
     if "session" in case:
         return _observe_session(case)
+    if "decl" in case:
+        return _observe_decl(case)
     s = case["s"]
     F = _facts()
     with warnings.catch_warnings():
@@ -973,9 +1044,58 @@ def _oracle_session(case, obs):
     return None
 
 
+def _oracle_decl(case, obs):
+    """A column declared with the name carries the name's parameters - whether the constructor's own length / precision /
+    scale / element_type keywords are omitted or passed as None ('not specified'), or passed with the very values the name
+    carries.  Keywords passed with OTHER values: only 'raises iff one of the names is rejected' is demanded."""
+    F = _facts()
+    d = case["decl"]
+    s, name, col, elt = obs["s"], obs["name"], obs["col"], obs["elt"]
+    how = f" [declared as FlatColumn(type={s!r}, " + ", ".join(k + "=" + ("None" if v[0] == "none" else ("OrsoTypes." + v[1] if v[0] == "member" else repr(v[1]))) for k, v in sorted(d["kw"].items())) + f"), route {d['route']}]"
+    why = _oracle_name(s, name, F)
+    if why:
+        return why
+    if elt is not None:
+        why = _oracle_name(elt["s"], elt["name"], F)
+        if why:
+            return why
+        if elt["name"][0] == "raise":
+            if col[:2] != ["raise", elt["name"][1]]:
+                return f"element_type={elt['s']!r} is rejected by from_name with {elt['name'][1]} but the column constructor answered {col[:2]}" + how
+            return None
+    if name[0] == "raise":
+        why = _oracle_carries(s, name, col)
+        return why + how if why else None
+    # do the values passed agree with what the name carries?
+    idx = {"length": 2, "precision": 3, "scale": 4}
+    agrees = True
+    for k, v in d["kw"].items():
+        if v[0] == "none":
+            continue
+        if k == "element_type":
+            own = v[1] if v[0] == "member" else (elt["name"][1][1] if elt["name"][1][0] == "member" else ["zero"])
+            agrees = agrees and own == name[5]
+        else:
+            agrees = agrees and v[1] == name[idx[k]]
+    if elt is not None and elt["name"][1][0] != "member":
+        return None   # element_type given as VARIANT / MISSING / 0: the column's element_type becomes the integer 0 (see notes, round 4 observation)
+    if not agrees:
+        if col[0] == "raise":
+            return f"FlatColumn raised {col[1]} although both names resolve" + how
+        return None
+    why = _oracle_carries(s, name, col)
+    if why:
+        return why + how
+    cty, cln, cpr, csc, cel, code, dpr, dsc, back = col[1:]
+    why = _oracle_code(s, name, col, code, dpr, dsc, back)
+    return why + how if why else None
+
+
 def oracle(case, obs):
     if "frame" in case:
         return _oracle_frame(case, obs)
+    if "decl" in case:
+        return _oracle_decl(case, obs)
     if "session" in case:
         return _oracle_session(case, obs)
     F = _facts()
@@ -1135,9 +1255,43 @@ def _session_to_coq(case, obs):
     return ("session", "((%s, %s, %s) : session_case)" % (cols, L.lst(steps), _c_schema(obs["final"])))
 
 
+def _decl_to_coq(case, obs):
+    d = case["decl"]
+    elt = obs["elt"]
+    if elt is not None and elt["name"][0] == "ok" and elt["name"][1][0] != "member":
+        return None    # element_type resolves to the integer 0: element_type = 0 is outside the description record of the model
+    def kn(k):
+        v = d["kw"].get(k)
+        if v is None:
+            return "KOmit"
+        return "KNone" if v[0] == "none" else "(KVal %s)" % _c_N(v[1])
+    e = d["kw"].get("element_type")
+    if e is None:
+        ke = "EOmit"
+    elif e[0] == "none":
+        ke = "ENone"
+    elif e[0] == "member":
+        ke = "(EMember %s)" % _c_text(e[1])
+    else:
+        ke = "(EName %s)" % _c_ci(dict(elt, n=""))
+    kw = "(mkKw %s %s %s %s)" % (kn("length"), kn("precision"), kn("scale"), ke)
+    col = obs["col"]
+    if col[0] == "raise":
+        c = "(ColRaise %s)" % _c_exn(col[1])
+    else:
+        cty, cln, cpr, csc, cel, code, dpr, dsc, back = col[1:]
+        if isinstance(code, list) or _bad(dpr, dsc):
+            c = "(ColRaise OtherExn)"
+        else:
+            c = "(ColOk %s %s %s %s %s)" % (_c_descr(cty, cln, cpr, csc, cel), _c_text(code), _c_optN(dpr), _c_optN(dsc), _c_result(back))
+    return ("decl", "((%s, %s, %s) : decl_case)" % (_c_ci(dict(obs, n="c")), kw, c))
+
+
 def to_coq(case, obs):
     if "frame" in case:
         return _frame_to_coq(case, obs)
+    if "decl" in case:
+        return _decl_to_coq(case, obs)
     if "session" in case:
         return _session_to_coq(case, obs)
     s = case["s"]
@@ -1188,6 +1342,8 @@ def _base_of(c):
 
 def nontrivial_key(case, obs):
     F = _facts()
+    if "decl" in case:  # non-trivial: the name resolves and at least one keyword is passed
+        return ("decl", jdump_case(case)) if obs["name"][0] == "ok" and case["decl"]["kw"] else None
     if "session" in case:  # non-trivial: the schema was changed between two descriptions
         kinds = [o[0] for o in case["session"]["ops"]]
         d = [i for i, k in enumerate(kinds) if k == "describe"]
@@ -1203,6 +1359,13 @@ def nontrivial_key(case, obs):
 
 
 def classify(case, obs):
+    if "decl" in case:
+        d = case["decl"]
+        yield "decl:route-" + d["route"]
+        kinds = sorted(set(v[0] for v in d["kw"].values()))
+        yield "decl:keywords-" + ("+".join(kinds) if kinds else "all-omitted")
+        yield "decl:" + ("raised" if obs["col"][0] == "raise" else "constructed")
+        return
     if "session" in case:
         ops = case["session"]["ops"]
         yield "session:%s-ops" % (len(ops) if len(ops) <= 4 else ("5-8" if len(ops) <= 8 else ">8"))
@@ -1432,6 +1595,90 @@ def _random_session(rng):
     return _session(cols, ops)
 
 
+# ---- the constructor's own keywords --------------------------------------------------------
+DECL_TYPES = ["DECIMAL(10,2)", "decimal(38,0)", "DECIMAL(5,5)", "DECIMAL", "VARCHAR[12]", "blob[255]", "ARRAY<INTEGER>", "Array<Timestamp>",
+              "ARRAY", "INTEGER", "VARIANT", "STRING"]
+DECL_FIELDS = ["length", "precision", "scale", "element_type"]
+DECL_VALUES = [{"length": ["val", 7]}, {"precision": ["val", 10]}, {"scale": ["val", 2]}, {"precision": ["val", 10], "scale": ["val", 2]},
+               {"precision": ["none"], "scale": ["val", 3]}, {"precision": ["val", 38], "scale": ["none"]}, {"length": ["val", 0], "precision": ["val", 0], "scale": ["val", 0]},
+               {"element_type": ["member", "INTEGER"]}, {"element_type": ["name", "varchar"]}, {"element_type": ["name", "VARCHAR[3]"]},
+               {"element_type": ["name", "decimal(5,6)"]}, {"element_type": ["name", "INTEGR{}"]}, {"element_type": ["member", "TIMESTAMP"], "length": ["none"]}]
+
+
+def _decl(s, kw, route="ctor"):
+    return {"decl": {"s": s, "kw": kw, "route": route}}
+
+
+def _decl_agreeing(s):
+    """the keywords spelled out with the very values the name carries (None where it carries none)"""
+    from orso.types import OrsoTypes
+
+    try:
+        with warnings.catch_warnings():
+            warnings.simplefilter("ignore")
+            r = OrsoTypes.from_name(s)
+        kw = {}
+        for k, v in zip(DECL_FIELDS[:3], r[1:4]):
+            kw[k] = ["none"] if v is None else ["val", int(v)]
+        kw["element_type"] = ["none"] if r[4] is None else ["member", r[4].name]
+        return kw
+    except Exception:
+        return {k: ["none"] for k in DECL_FIELDS}
+
+
+def _decls_exhaustive(tier):
+    for s in DECL_TYPES:
+        # every subset of the four keywords passed as None (the empty subset: all omitted), both routes
+        for mask in range(16):
+            kw = {f: ["none"] for i, f in enumerate(DECL_FIELDS) if mask >> i & 1}
+            yield _decl(s, kw)
+            if mask in (0, 1, 6, 8, 15):
+                yield _decl(s, kw, "document")
+        for kw in DECL_VALUES:
+            yield _decl(s, dict(kw))
+        yield _decl(s, _decl_agreeing(s))
+        yield _decl(s, _decl_agreeing(s), "document")
+
+
+def _random_decl(rng):
+    s = _recase(rng, _same_family(rng) if rng.random() < 0.6 else _valid(rng))
+    kw = {}
+    for f in DECL_FIELDS[:3]:
+        r = rng.random()
+        if r < 0.35:
+            kw[f] = ["none"]
+        elif r < 0.5:
+            kw[f] = ["val", rng.choice([0, 1, 2, 5, 10, 12, 28, 38, 39, 255, rng.randint(0, 10 ** 6)])]
+    r = rng.random()
+    if r < 0.35:
+        kw["element_type"] = ["none"]
+    elif r < 0.45:
+        kw["element_type"] = ["member", rng.choice(_facts()["members"])]
+    elif r < 0.55:
+        kw["element_type"] = ["name", _recase(rng, rng.choice(_all_names() + ["VARCHAR[3]", "DECIMAL(4,2)", "ARRAY<DATE>", "INT", "STRUCT{a:INTEGER}"]))]
+    if rng.random() < 0.15:
+        kw = _decl_agreeing(s)
+    return _decl(s, kw, rng.choice(["ctor", "ctor", "document"]))
+
+
+# ---- malformed names whose text would mean something to a formatter ---------------------------
+# str.format / % / string.Template / regex / escape templates: a name containing them is still just an unknown name
+TEMPLATE_TOKENS = ["{}", "{0}", "{1}", "{a}", "{a:INTEGER}", "{10,2}", "{12}", "{VARCHAR,INTEGER}", "{!r}", "{:>10}", "{0.__class__}", "{{}}", "{{", "}}", "{", "}",
+                   "%s", "%d", "%(a)s", "%", "%%", "$a", "${a}", "$", "\\", "\\d", "\\1", "\\N{BULLET}", "\\g<0>", "\x00", "'", '"', "`", "#{a}", "(?P<a>x)", "&amp;"]
+TEMPLATE_HOSTS = ["", "INTEGR", "STRUCT", "DECIMAL", "VARCHAR"]
+
+
+def _template_names():
+    for tok in TEMPLATE_TOKENS:
+        for h in TEMPLATE_HOSTS:
+            yield h + tok
+        yield tok.lower() + "struct" + tok
+        yield "ARRAY<%s>" % tok
+        yield "ARRAY<INTEGER%s>" % tok
+        yield "DECIMAL(%s)" % tok
+        yield "VARCHAR[%s]" % tok
+
+
 def exhaustive(tier):
     def it():
         names = _all_names()
@@ -1464,6 +1711,9 @@ def exhaustive(tier):
             yield {"s": "ARRAY<DA%sTE>" % ch}
         yield from _frames_exhaustive(tier)
         yield from _sessions_exhaustive(tier)
+        yield from _decls_exhaustive(tier)
+        for s in _template_names():
+            yield {"s": s}
         if tier == "thorough":
             for p in range(0, 46):
                 for s in range(0, 46):
@@ -1495,6 +1745,9 @@ def exhaustive(tier):
     label += ("; sessions on one schema object: every ordered pair (old, new) of %d declarations x 5 re-declaration routes (assign at the index, pop+append with and "
               "without a change of order, attributes assigned in place, grow/re-declare/shrink), each described through the frame used before and a frame created after"
               % len(SESSION_TYPES))
+    label += ("; constructor keywords: %d type names x (every subset of length / precision / scale / element_type passed as None by keyword, five of the subsets also through a fully spelled-out "
+              "schema document; %d value patterns; the name's own values spelled out); %d formatter / template tokens (str.format, %%, $, backslash, regex groups, NUL, quotes) "
+              "after %d hosts, around a name, and inside ARRAY<>, DECIMAL(), VARCHAR[]" % (len(DECL_TYPES), len(DECL_VALUES), len(TEMPLATE_TOKENS), len(TEMPLATE_HOSTS)))
     if tier == "thorough":
         label += "; frames: every ordered pair of DECIMAL(p,s) over a 7-value grid and of ARRAY<T> over all names, every ordered triple of 19 spellings"
         label += "; thorough: two further spellings of every DECIMAL(p,s), n in 0..3000, ARRAY<T> in 5 case patterns and with every ASCII character appended, 7 more character positions"
@@ -1503,7 +1756,8 @@ def exhaustive(tier):
 
 NOISE = ["\u00df", "\u0131", "\u017f", "\ufb06", "\ufb01", "\u0130", "\u0149", "\u00e9", "\u03a3", "\u03c2", "\u0663", "\u0661", "\uff10", "\uff19",
          "\u07c2", "\u00b2", "\u2167", "\u00a0", "\u2003", "\u3000", "\u0085", "\u200b", "\u0301", "\u6f22", "\U0001d7d7", "\U0001f600", "\uff41",
-         "\uff21", "\uff1c", "\uff3b", "\uff08", "\u2028", "\u1680", "\u01c5", "\u01c6", "\u1fb3", "\u0969", "\u1c49"]
+         "\uff21", "\uff1c", "\uff3b", "\uff08", "\u2028", "\u1680", "\u01c5", "\u01c6", "\u1fb3", "\u0969", "\u1c49",
+         "\u212a", "\u212b", "\u1e9e", "\u0390", "\u03b0", "E\u0301", "\u00c5", "A\u030a", "\u0345", "\ufb00", "\u2160", "\u24b6"]
 ASCII_POOL = "ARYDECIMLVHBOTINGSU<>[]()0123456789, _\t\n\x1c-+.xyz"
 
 
@@ -1644,8 +1898,17 @@ def generate(rng, tier):
     # frames are drawn after the strings so that the string stream of a given seed is the one of round 1
     for _ in range(250 if tier == "quick" else 5000):
         yield _random_frame(rng)
-    for _ in range(150 if tier == "quick" else 4000):
+    for _ in range(150 if tier == "quick" else 3000):
         yield _random_session(rng)
+    for _ in range(150 if tier == "quick" else 2000):
+        yield _random_decl(rng)
+    toks = TEMPLATE_TOKENS
+    for _ in range(100 if tier == "quick" else 1500):
+        s = _recase(rng, _valid(rng))
+        for _k in range(rng.randint(1, 2)):
+            pos = rng.randint(0, len(s))
+            s = s[:pos] + rng.choice(toks) + s[pos:]
+        yield {"s": s}
 
 
 def search(rng):
@@ -1654,11 +1917,19 @@ def search(rng):
         if names is None:
             names = _all_names()
         r = rng.random()
-        if r < 0.3:
+        if r < 0.2:
             yield _random_frame(rng)
             continue
-        if r < 0.6:
+        if r < 0.4:
             yield _random_session(rng)
+            continue
+        if r < 0.55:
+            yield _random_decl(rng)
+            continue
+        if r < 0.7:
+            s = _recase(rng, _valid(rng))
+            pos = rng.randint(0, len(s))
+            yield {"s": s[:pos] + rng.choice(TEMPLATE_TOKENS) + s[pos:]}
             continue
         k = rng.random()
         if k < 0.2:
@@ -1672,6 +1943,17 @@ def search(rng):
 
 
 def shrink(case):
+    if "decl" in case:
+        d = case["decl"]
+        for k in sorted(d["kw"]):
+            kw = dict(d["kw"])
+            del kw[k]
+            yield {"decl": dict(d, kw=kw)}
+        if d["route"] != "ctor":
+            yield {"decl": dict(d, route="ctor")}
+        if d["s"] != d["s"].upper():
+            yield {"decl": dict(d, s=d["s"].upper())}
+        return
     if "session" in case:
         s = case["session"]
         for i in range(len(s["ops"])):
